@@ -23,6 +23,10 @@ impl Timestamp {
 
     /// Returns a timestamp representing the current system time.
     pub fn now() -> Timestamp {
+        #[cfg(cfb_verif)]
+        if let Some(now) = crate::internal::verif::clock_override() {
+            return Timestamp::from_system_time(now);
+        }
         Timestamp::from_system_time(SystemTime::now())
     }
 
